@@ -257,7 +257,16 @@ func c11r4(r *R) {
 	held := true
 	eachInstr(sd, func(ins ssa.Instruction) {
 		if c, ok := ins.(*ssa.Call); ok && calleeName(c.Common()) == "(*sync/atomic.Int32).Load" {
-			held = held && lsd[ins]["$0.connsMu"]
+			// the read that decides "drained": compared with zero
+			deciding := false
+			for _, ref := range *c.Referrers() {
+				if bo, ok := ref.(*ssa.BinOp); ok && bo.Op.String() == "==" {
+					deciding = true
+				}
+			}
+			if deciding {
+				held = held && lsd[ins]["$0.connsMu"]
+			}
 		}
 	})
 	r.check(held, "Proxy.Shutdown#counts-under-lock", sd.Pos(), "count is read with connsMu held: no connection can register in between", "Shutdown reads the count without connsMu")
